@@ -65,6 +65,8 @@ def gen_frame(r, rich=False, nhosts=4):
       fs["tcpopts"] = r.pick(["020405b4", "01010101"])
   if k not in ("snap", "llc") and r.chance(0.3):
     fs["vlan"] = [r.pick([1, 5, 100, 0xfff, 0]), r.pick([0, 0, 3, 7])]
+    if r.chance(0.2):
+      fs["vlan2"] = [r.pick([1, 77, 0xfff]), r.pick([0, 5])]
   return fs
 
 
